@@ -522,7 +522,7 @@ def field_jobs(chk, seed, w, rows, quick):
             continue
         for i, (off, label) in enumerate(ins):
             for j, row in enumerate(vals):
-                if not quick and len(ins) > 8 and i not in set(chk_spread(len(ins), 8)):
+                if not quick and len(ins) > 4 and i not in set(chk_spread(len(ins), 4)):
                     continue
                 if quick:
                     # deterministic thinning: one value per instance, rotating through the values of the
@@ -548,10 +548,15 @@ def chk_spread(n, k):
 def truncation_offsets(seed, w, quick):
     n = len(seed["data"])
     if not quick:
-        if n <= 1024:
+        if n <= 512:
             return list(range(n))
-        stride = 3 if n <= 4096 else 7
-        return sorted(set(list(range(0, 256)) + list(range(256, n, stride)) + [o for o, wd, c, l in w.fields] + [o + wd for o, wd, c, l in w.fields if o + wd < n]))
+        cuts = set(chk_spread(n, 48))
+        bounds = sorted(set([o for o, wd, c, l in w.fields] + [o + wd for o, wd, c, l in w.fields if o + wd < n]))
+        for i in chk_spread(len(bounds), 64):
+            cuts.add(bounds[i])
+            if bounds[i] + 1 < n:
+                cuts.add(bounds[i] + 1)
+        return sorted(c for c in cuts if c < n)
     if n <= 128:
         return list(range(n))
     cuts = set(chk_spread(n, 12))
@@ -568,7 +573,7 @@ def byte_jobs(seed, w, quick):
     n = len(data)
     out = []
     structural = [i for i in range(n) if not any(a <= i < b for a, b in w.payload)]
-    pos = [structural[i] for i in chk_spread(len(structural), 2 if quick else 30)]
+    pos = [structural[i] for i in chk_spread(len(structural), 2 if quick else 10)]
     for k, p in enumerate(pos):
         for name, m in (("xor-ff", data[:p] + bytes([data[p] ^ 0xff]) + data[p + 1:]),
                         ("xor-80", data[:p] + bytes([data[p] ^ 0x80]) + data[p + 1:]),
@@ -673,7 +678,7 @@ def run(chk, replay=None):
             jobs.append(tc.Job(seed["tool"], "decompile", seed["game"], seed["data"], seed["ext"], opts=["--max-columns", width],
                                gen={"class": "option:max-columns", "seed_file": seed["name"], "width": width}, hist=("h", k)))
     chk.set("field_instances_located", n_fields)
-    nrand = 300 if quick else 12000
+    nrand = 300 if quick else 6000
     games = sorted(GAME_NUM)
     for i in range(nrand):
         seed = seeds[chk.rng.randrange(len(seeds))]
@@ -709,7 +714,7 @@ def run(chk, replay=None):
         seen.add((j.tool, j.game, lib.sha(d)))
     chk.set("distinct_nontrivial", len(seen))
     chk.set("rule", "inputs: every bundled binary and binaries compiled from valid sources, (a) truncated (every offset of files <= 128 bytes, "
-                    "field boundaries + stride for larger ones in quick; every offset of files <= 1 KiB, stride 3/7 + field boundaries above, in thorough), (b) byte mutations at "
+                    "field boundaries + stride for larger ones in quick; every offset of files <= 512 bytes, 48 spread cuts + 64 field boundaries above, in thorough), (b) byte mutations at "
                     "structural positions, (c) every located field instance x TLC-enumerated boundary values (spec/Gen_FieldMutations.tla; "
                     "quick: fixed rotation of values over instances), + VERIF_SEED-dependent random mutations; each decompiled under a "
                     "rotating --no-* option subset, ANM also extracted. Counted as distinct_nontrivial: distinct (tool, game, bytes) that differ "
